@@ -9,7 +9,6 @@ package c10
 // return.
 
 import (
-	"errors"
 	"fmt"
 	"runtime"
 	"sync"
@@ -90,7 +89,7 @@ func runEntry(c *Case) error {
 			hx.Label("entry in Rpc at the failure: 16+")
 		}
 		if maxIn >= 1 {
-			hx.NonTrivial("entry", c.Dotu, c.Msize, c.Fail, c.Callers, c.Rounds, c.Mode, c.Perturb, c.Hook, c.Procs, c.Cut, c.Spread, c.After, c.Via)
+			hx.NonTrivial("entry", c.Dotu, c.Msize, c.Fail, c.Callers, c.Rounds, c.Mode, c.Perturb, c.Hook, c.Procs, c.Cut, c.Spread, c.After, c.Via, c.ErrKind)
 		}
 	}()
 	for r := 0; r < c.Rounds; r++ {
@@ -221,7 +220,7 @@ func entryRound(c *Case, round int) (inAtFailure int64, err error) {
 		case "eof":
 			end.CloseWrite()
 		case "err":
-			end.FailPeer(errors.New("injected transport error"))
+			end.FailPeer(transportErr(c.ErrKind))
 		case "unmount":
 			go func() { clnt.Unmount(); close(unmounted) }()
 		case "badtype":
@@ -301,6 +300,9 @@ func entryDraw(t *testing.T, failedp *error) {
 		// one storm in three runs on a client made by MountConn (it has a Root fid)
 		if rapid.IntRange(0, 2).Draw(t, "mounted") == 0 {
 			c.Via, c.Dotu = "mounted", true
+		}
+		if c.Fail == "err" {
+			c.ErrKind = rapid.SampledFrom(errKinds).Draw(t, "errkind")
 		}
 		if *failedp != nil {
 			return
